@@ -636,7 +636,31 @@ def phantom(chk, prog, cfg):
                 cond, keep_when = lam.result
                 ok = unref(it) in (cr.arg(b, 1), ("var", 1, b.names.get(1))) and keep_when is False \
                     and is_call(cond, "MetaType::is_phantom", nargs=1) and unref(cond[2][0]) in (lam.item, unref(lam.item))
-        chk.expect(ok, "R17.4", "TypeDefTuple::new:filters-phantoms", b.where(), path_str(rt)[:200], cfg)
+        detail_ = path_str(rt)[:200]
+        if not ok:
+            # any other spelling: the constructor is run on [a, b] under the four patterns of is_phantom answers and must keep exactly the
+            # members that are not phantom, in order, asking each member once
+            try:
+                S_ = absint.Sym
+                outs_ = {}
+                for pa_ in (False, True):
+                    for pb_ in (False, True):
+                        class _R(symrun.Run):
+                            def handler(self, name, args, t, pa_=pa_, pb_=pb_):
+                                if mir.strip_generics(name).endswith("MetaType::is_phantom") and len(args) == 1 and args[0] in (S_("a"), S_("b")):
+                                    self.log.append(args[0])
+                                    return pa_ if args[0] == S_("a") else pb_
+                                return symrun.Run.handler(self, name, args, t)
+                        r_ = _R(prog)
+                        v_ = r_.run(b.path, [("vec", (S_("a"), S_("b")))])
+                        fs_ = symrun.field(v_, "fields") if symrun.is_struct(v_, TT) else None
+                        outs_[(pa_, pb_)] = (fs_, list(r_.log))
+                want_ = {(pa_, pb_): ("vec", tuple(x for x, ph in ((S_("a"), pa_), (S_("b"), pb_)) if not ph)) for pa_ in (False, True) for pb_ in (False, True)}
+                ok = all(outs_[k_][0] == want_[k_] and outs_[k_][1] == [S_("a"), S_("b")] for k_ in want_)
+                detail_ = "run on [a, b] under the four is_phantom patterns: %s" % {("%s/%s" % k_): symrun.show(v[0]) if v[0] is not None else None for k_, v in outs_.items()}
+            except absint.Unrecognised as e:
+                detail_ += " (cannot interpret: %s)" % e
+        chk.expect(ok, "R17.4", "TypeDefTuple::new:filters-phantoms", b.where(), detail_, cfg)
     for (b, bb, rv) in who.aggregates(prog, B + "FieldsBuilder"):
         p = mir.strip_generics(b.path)
         t = b.rvalue_term(rv)
